@@ -96,7 +96,11 @@ func rtThreads(ex *Exec, fn *ssa.Function, args []Value) (Value, *Panic) {
 	for i := 0; i < n; i++ {
 		r := &recorder{thread: i, cells: cells, widths: widths, names: names}
 		ex.recording = r
-		v, pan := ex.callFuncV(body, nil, nil)
+		var bargs []Value
+		if body.fn != nil && body.fn.Signature.Params().Len() == 1 {
+			bargs = []Value{ts.Const(64, uint64(i))} // ThreadsIdx: the thread's index
+		}
+		v, pan := ex.callFuncV(body, bargs, nil)
 		ex.recording = nil
 		if pan != nil {
 			return nil, pan
